@@ -1,6 +1,9 @@
 package engine
 
-import "fmt"
+import (
+	"fmt"
+	"strings"
+)
 
 // Registry lists, per property, the harnesses that decide it.
 var Registry = map[string]Check{}
@@ -101,8 +104,43 @@ func init() {
 		Harness{Pkg: "jpeg2000", Fn: "VerifC08Window", Label: "jpeg2000:packetdata", AllocCut: 64, Params: [2]map[string]int64{P("k", 1, "region", 2, "scanpos", 2), P("k", 2, "region", 2, "scanpos", 4)}, Bounds: [2]string{"first 2 bytes after SOD, k=1", "first 4 bytes after SOD, k=2"}, Desc: "jpeg2000.Decoder.Decode (tile decoder, packet headers, T1/MQ) with symbolic bytes at the start of the packet data; main-header corruption through the full decoder is outside the claim (covered for the parser)"},
 		Harness{Pkg: "jpeg2000/codestream", Fn: "VerifC08ParserFree", AllocCut: 48, Params: [2]map[string]int64{P("n", 8), P("n", 12)}, Bounds: [2]string{"SOC + 8 symbolic bytes", "SOC + 12 symbolic bytes"}, Desc: "SOC followed by N fully symbolic bytes through Parse"},
 		Harness{Pkg: "jpeg2000/codestream", Fn: "VerifC08ParserSIZ", AllocCut: 48, Params: [2]map[string]int64{P("tail", 4), P("tail", 8)}, Bounds: [2]string{"SIZ for 1-2 components fully symbolic + 4 bytes", "+ 8 bytes"}, Desc: "SOC, SIZ with concrete length and fully symbolic payload, then symbolic bytes"},
+		Harness{Pkg: "rle", Fn: "VerifC08RLEData", AllocCut: 64, Params: [2]map[string]int64{P("data", 4), P("data", 6)}, Bounds: [2]string{"4 symbolic segment bytes, 1 and 2 byte planes", "6 bytes"}, Desc: "rle.Codec.Decode on a well-formed header followed by fully symbolic segment bytes (every control byte incl. the 0x80 no-op, literal and repeat runs running over the segment or the frame)"},
 		Harness{Pkg: "rle", Fn: "VerifC08RLE", AllocCut: 64, Params: [2]map[string]int64{P("hdr", 1, "data", 3), P("hdr", 2, "data", 3)}, Bounds: [2]string{"10 frame descriptions x symbolic segment count + 3 data bytes + truncations", "+ symbolic first offset"}, Desc: "rle.Codec.Decode with frame descriptions covering zero fields / BitsAllocated 0 and 65535 / >15 planes, symbolic header words and data"},
 	)
+	// C09: the same input templates, other obligations: every allocation stays
+	// within the property's memory budget and no input exhausts the step budget.
+	var c09 []Harness
+	for _, h := range c08 {
+		if h.Pkg == "jpeg/extended" || h.Pkg == "jpeg/baseline" || strings.HasSuffix(h.Label, ":scan") && strings.HasPrefix(h.Pkg, "jpegls") {
+			// DCT decoders: the component-buffer sizes divide by symbolic sampling
+			// factors; the allocation obligations did not decide within 25 minutes
+			// (probed) - baseline/extended are outside the C09 claim
+			continue
+		}
+		g := h
+		g.Params = [2]map[string]int64{}
+		for t := 0; t < 2; t++ {
+			g.Params[t] = map[string]int64{"c09": 1}
+			for k, v := range h.Params[t] {
+				g.Params[t][k] = v
+			}
+		}
+		g.AllocLimit = 768 << 20
+		g.StepLimitIsViolation = true
+		g.MaxSteps = 400_000 // the templates' inputs are at most a few hundred bytes
+		g.Desc = "C09 obligations on: " + h.Desc
+		c09 = append(c09, g)
+	}
+	c09 = append(c09, Harness{Pkg: "jpeg2000", Fn: "VerifC09TileAssembler", AllocCut: 64, AllocLimit: 768 << 20, StepLimitIsViolation: true,
+		Bounds: [2]string{"all SIZ extents/offsets/tile sizes (31-bit), 1..4 components, declared samples <= 2^22", "same"},
+		Desc: "jpeg2000 NewTileLayout/NewTileAssembler on a SIZ segment whose image extent, image offset, tile size and tile offset are solver variables: every allocation within the budget (full jpeg2000.Decoder.Decode with symbolic main-header bytes did not finish within 10 minutes even for one symbolic byte and is not part of the claim)"})
+	reg(Check{Property: "C09", Harnesses: c09, OnlyKinds: []string{"alloc-bound", "nontermination"},
+		Assumptions: []string{
+			"memory: the obligation is per allocation site - a make() whose size depends on the input must stay within 768 MiB (512 MiB + 64 bytes x 2^22 declared samples, the largest budget the property grants) for every input whose independently parsed first frame header declares at most 2^22 samples or nothing; the running total over several allocations is not summed",
+			"time: wall time is not modelled; an input that drives the decoder past the executor's step budget (400 000 SSA instructions for inputs of at most a few hundred bytes) is replayed natively under a 45 s watchdog and reported when it does not finish",
+			"NOT covered: the DCT decoders (jpeg/baseline, jpeg/extended): their component buffers are sized by divisions by symbolic sampling factors and the allocation obligations did not decide within 25 minutes on any back end",
+			"inputs are the C08 templates (valid stream with a symbolic window / short free strings), not arbitrary 64 KiB strings; after a symbolic allocation the path continues under the allocation cut (size <= 48..1024 elements)",
+			"violations of the allocation bound are engine observations (the replay file re-executes the recorded input symbolically on /repo's current tree); they are not replayed natively because a native run would exhaust the sandbox's memory"}})
 	reg(Check{Property: "C08", Harnesses: c08,
 		Assumptions: []string{"allocation cut: after a make() with a symbolic size the path continues under size <= 48 elements (64 for JPEG 2000/RLE, 1024 for the DCT decoders' component buffers); larger declared sizes are outside the C08 claim", "inputs are the stated templates: a valid stream with one symbolic window, or a short free string; arbitrary long inputs are outside the claim"}})
 
@@ -233,6 +271,12 @@ func init() {
 		{Pkg: "internal/zzc10", Fn: "VerifC10Wrapper", Label: "write-set", Desc: wrapDesc, Bounds: wrapBounds, Params: [2]map[string]int64{P("frames", 2), P("frames", 3)}, MaxSteps: 900_000_000},
 	}})
 
+	reg(Check{Property: "C06",
+		Assumptions: []string{"the HT block coder branches on every coefficient bit: sample values are enumerated path by path (enumerative), so only tiny frames are reached", "NOT covered: frames beyond the stated sizes, 16-bit containers, code-block sizes and explicit decomposition depths other than the codec defaults, the third-party OpenJPH/fo-dicom fixtures (the decoder's agreement with foreign streams is not decided)"},
+		Harnesses: []Harness{
+			{Pkg: "internal/zzc10", Fn: "VerifC06Codec", Desc: "HTJ2K Lossless (.201) and Lossless RPCL (.202) codecs, Encode -> Decode on tiny frames with symbolic samples (incl. 1-pixel-wide and 1-pixel-high frames whose decomposition depth is clamped to 0): decoded bytes equal the source",
+				Bounds: [2]string{"1x1, 2x1, 1x2, 2x2 at BitsStored 2 (all values)", "+ 1x1x3, 3x1, 1x3, 3x2; BitsStored 2 and 8 (8-bit: samples from {0,1,254,255})"}, Params: [2]map[string]int64{P("ngeom", 4, "nP", 1), P("ngeom", 8, "nP", 2)}, Enumerative: true, MaxSteps: 900_000_000, BudgetS: [2]int{600, 3000}},
+		}})
 	reg(Check{Property: "C11",
 		Assumptions: []string{"STRUCTURE ONLY: the numeric per-sample bound of C11 (DCT/IDCT accuracy, colour rounding) is NOT decided - probed and out of reach (DESIGN.md section 4 C11); decided here is that the tables in the stream are the tables that quantised, in the order the decoder reads them, and that partial blocks are edge-replicated"},
 		Harnesses: []Harness{
